@@ -21,7 +21,7 @@ Asg(x, dstn, e, env, n, live) ==      \* live: the destination is a TensorMap (c
         put(v) == [env EXCEPT ![dstn] = v]
         whole == put(Comb2(x, d, Den(e, env, n)))                \* evaluate e on the CURRENT environment, then combine
     IN
-    IF e.k = "t" \/ ~Req(e) THEN whole                            \* trivial_assign: element-wise loop
+    IF e.k \in {"t", "s"} \/ ~Req(e) THEN whole                            \* trivial_assign: element-wise loop
     ELSE IF e.k \in {"mm", "trans", "inv", "adj", "cof", "sdet", "strace"} THEN whole   \* operands evaluated first, result combined
     ELSE IF x = "set" THEN                                        \* ..._ASSIGNMENT_0: two stages, no alias check
         LET second == e.k                                         \* add -> assign_add, sub -> assign_sub, mul -> assign_mul
